@@ -1221,6 +1221,31 @@ func c17Caps(r *core.Run) {
 		})
 	}
 	r.Floor("C17.CAPS", "provider response reads", nR, 1)
+	// ... and so is every other whole-content read in production code: source files are read through a size-bounded
+	// reader (a Stat size understates what a FIFO, a device or a growing file delivers), and nothing reads a whole
+	// file by name
+	nF := 0
+	for _, fn := range p.Funcs {
+		if !p.IsProdFunc(fn) || (fn.Pkg != nil && strings.HasSuffix(fn.Pkg.Pkg.Path(), "/internal/llm")) {
+			continue
+		}
+		core.InstrsOf(fn, func(in ssa.Instruction) {
+			c, ok := in.(*ssa.Call)
+			if !ok {
+				return
+			}
+			switch core.CalleeName(&c.Call) {
+			case "io.ReadAll":
+				nF++
+				_, lim := callTo(core.Unwrap(core.Resolve(c.Call.Args[0])), "io.LimitReader")
+				r.Check(lim, "C17.CAPS", core.FuncName(fn)+"#bounded-read", in.Pos(), "content is read through io.LimitReader", "content is read to the end without a size bound: an input whose Stat size understates what a read delivers (FIFO, device, /proc file, a file that grows) is read and analysed whole, or exhausts memory")
+			case "os.ReadFile", "io/ioutil.ReadFile", "io/ioutil.ReadAll":
+				nF++
+				r.Fail("C17.CAPS", core.FuncName(fn)+"#bounded-read", in.Pos(), "a whole file is read by "+core.CalleeName(&c.Call)+" without a size bound")
+			}
+		})
+	}
+	r.Floor("C17.CAPS", "whole-content reads of input files", nF, 1)
 
 	// rendered-expression digest cap in the renamer
 	nD := 0
